@@ -70,4 +70,18 @@ class Candidates(es.CandidateStream):
         return pl.oracle_valid_row(case, out)
 
 
-STREAMS = [RowStream(), Files(), Candidates()]
+class Records(es.RecordStream):
+    """the verified checker valid_rowb (C01_checker_sound_complete) evaluated in Coq on every record of every file real runs wrote
+    (joined records of the main files are left to `e2e_files`, which routes the open finding F10)"""
+    name = 'e2e_records'
+    skip_joined_main = True
+    prelude = '''From Coq Require Import ZArith List Bool. Import ListNotations.
+Require Import Checkers. Open Scope Z_scope.
+Definition check (c : Z * Z * bool * list (Z * Z)) : Z := match c with (nref, nqry, rev, ps) => if valid_rowb nref 1 nqry rev ps then 0 else 2 end.'''
+
+    def term(self, case, out):
+        from ..common import z, cb, clist
+        return '(%s, %s, %s, %s)' % (z(case['nref']), z(case['nqry']), cb(case['rev']), clist('(%s,%s)' % (z(a), z(b)) for a, b in case['pairs']))
+
+
+STREAMS = [RowStream(), Files(), Candidates(), Records()]
